@@ -40,7 +40,11 @@ META = dict(
          "decoded values and cursor are compared by TLC with the spec (CRC: independent hash/crc32 over the prescribed extent). "
          "(2) all 84 request/response bodies of allocateBody x every version they implement (156 body-versions), requests also "
          "framed in request{} behind the length prefix, RecordBatch x {none,gzip(default,1,9),snappy,lz4,zstd}, MessageSet x "
-         "{none,gzip,snappy,lz4} x magic {0,1}, nested in produce/fetch bodies: sizing and writing pass make the same calls and "
+         "{none,gzip,snappy,lz4} x magic {0,1}, nested in produce/fetch bodies. Collection lengths are derived from the "
+         "structure of the value (a nested collection never has the length of the collection around it, sibling collections of "
+         "one struct have pairwise different lengths; every body x version with nested collections is encoded with outer 1 / "
+         "inner 2+, outer 2+ / inner 1, outer 2+ / inner of another length and an empty inner collection - measured, else "
+         "inconclusive), so a length prefix taken from the wrong collection shows on the wire. Checked: sizing and writing pass make the same calls and "
          "reach the same total and per-push extents, every push field is the prescribed function of the bytes it covers, decode "
          "consumes exactly the buffer, the decoded value reports its version, decode tape = encode tape as multisets of (kind, "
          "width, wire bytes), re-encode has equal length / cells / (no Go map iterated) bytes, second decode equals the first.",
@@ -199,6 +203,11 @@ def run(ctx):
     if bsum.get("never_encoded"):
         raise vlib.Inconclusive("no value of %s passed the first encode: the filler does not cover these bodies" % bsum["never_encoded"])
 
+    if bsum.get("nested_shapes_missing_by_type"):
+        raise vlib.Inconclusive("bodies with a collection inside a collection were not encoded in every nested shape "
+                                "(outer 1 / inner 2+, outer 2+ / inner 1, outer 2+ / inner of another length, empty inner): %s"
+                                % bsum["nested_shapes_missing_by_type"])
+
     viols = []
     if pv:
         ev = load_events(ptrace, {(v["trace"], v["index"]) for v in pv})
@@ -222,7 +231,7 @@ def run(ctx):
         "distinct_nontrivial": nontrivial_prog + bsum["distinct_nontrivial"],
         "rule": "programs: every sealed state of the exhaustive TLC runs of spec/Codec.tla is one program, distinct by construction "
                 "(deduplicated across runs by hash), non-trivial = at least 2 calls; bodies: one run per body x version x fill "
-                "(fill 0 minimal, 1 maximal, 2 negative/singleton, then seeded random; requests additionally framed), distinct by "
+                "(fill 0 empty, 1-5 structural collection shapes, then seeded random; requests additionally framed), distinct by "
                 "(name, version, kind, encoded bytes), non-trivial = at least 3 primitive cells on the wire",
         "samples": psamples[:2] + bsum.get("samples", [])[:3],
         "states": states,
@@ -233,6 +242,8 @@ def run(ctx):
         "program_encode_errors_as_modelled": sum(s["encode_errors"] for s in sums),
         "body_runs": bsum["bodies"],
         "body_versions_covered": len(bsum["runs"]),
+        "bodies_with_nested_collections": bsum["bodies_with_nested_collections"],
+        "nested_collection_shapes_encoded": bsum["nested_shapes"],
         "bodies_skipped_first_encode_failed": sum(bsum["skipped_first_encode_failed"].values()),
         "model_runs": mstats,
         "model_invariants": INVARIANTS,
